@@ -134,6 +134,10 @@ pub enum BadReq {
     /// several requests (refused and harmless ones) on ONE keep-alive connection: each must
     /// be answered, in order, and the connection must stay usable
     KeepAlive { kinds: Vec<u8> },
+    /// a harmless, complete GET request whose head bytes (after the method) are edited:
+    /// (position, byte, 0 replace / 1 insert / 2 delete). Whatever it has become, it is one
+    /// complete request that cannot change the store: it must be answered (2xx or 4xx)
+    Mangled { template: u8, edits: Vec<(u16, u8, u8)> },
 }
 
 #[derive(Clone, Debug, PartialEq, Serialize, Deserialize)]
@@ -217,6 +221,7 @@ impl Op {
                 BadReq::BadImport { .. } => "bad-import",
                 BadReq::UnknownMethod { .. } => "unknown-method",
                 BadReq::KeepAlive { .. } => "keep-alive-sequence",
+                BadReq::Mangled { .. } => "mangled-get",
             },
         }
     }
@@ -646,6 +651,8 @@ pub fn bad_req(_p: &Profile) -> BoxedStrategy<BadReq> {
         1 => Just(BadReq::EmptyCasPost),
         3 => sel(BAD_IMPORTS).prop_map(|body| BadReq::BadImport { body }),
         3 => proptest::collection::vec(0u8..8, 2..7).prop_map(|kinds| BadReq::KeepAlive { kinds }),
+        6 => (0u8..8, proptest::collection::vec((any::<u16>(), any::<u8>(), 0u8..3), 1..4))
+            .prop_map(|(template, edits)| BadReq::Mangled { template, edits }),
         2 => (
             proptest::sample::select(vec!["PUT", "PATCH", "OPTIONS", "TRACE", "HEAD"]).prop_map(|s| s.to_string()),
             proptest::sample::select(vec!["/", "/x", "/cas", "/import", "/version", "/head/x"]).prop_map(|s| s.to_string()),
@@ -712,6 +719,7 @@ pub struct Flags {
     pub excluded_same_id_import: u32,
     pub excluded_time_reg_import: u32,
     pub gc_removed_with_neighbour: bool,
+    pub http_follower: bool,
 }
 
 impl Default for Flags {
@@ -734,6 +742,7 @@ impl Default for Flags {
             excluded_same_id_import: 0,
             excluded_time_reg_import: 0,
             gc_removed_with_neighbour: false,
+            http_follower: false,
         }
     }
 }
@@ -748,6 +757,10 @@ pub struct Interp {
     pub ctxs: Vec<u128>,
     pub ephemeral_ids: Vec<u128>,
     pub follower: Option<(u32, Vec<WFrame>)>,
+    /// with HTTP access the follower is, two times out of three, a following `GET /`
+    /// (NDJSON, then SSE) read incrementally by the driver instead of a Store::read
+    pub http_follower: Option<crate::httpx::HttpFollower>,
+    pub follower_starts: u32,
     pub want_follower: bool,
     pub flags: Flags,
     pub checks: u64,
@@ -836,6 +849,8 @@ impl Interp {
             ctxs: Vec::new(),
             ephemeral_ids: Vec::new(),
             follower: None,
+            http_follower: None,
+            follower_starts: 0,
             want_follower,
             flags: Flags::default(),
             checks: 0,
@@ -936,7 +951,26 @@ impl Interp {
     }
 
     fn start_follower(&mut self) -> Check {
+        self.http_follower = None;
+        if self.want_follower && self.use_http(None) && self.follower_starts % 3 != 2 {
+            let sse = self.follower_starts % 3 == 1;
+            self.follower_starts += 1;
+            let sock = self.sock.clone().unwrap();
+            let opts = ROpts {
+                follow: Some(0),
+                tail: true,
+                ..Default::default()
+            };
+            let hf = crate::httpx::follow_start(&sock, &opts, sse)
+                .map_err(|e| Fail::new(Class::Http, format!("following GET /: {e}")))?;
+            self.http_requests += 1;
+            self.flags.http_follower = true;
+            self.http_follower = Some(hf);
+            self.follower = Some((u32::MAX, Vec::new()));
+            return Ok(());
+        }
         if self.want_follower {
+            self.follower_starts += 1;
             let h = must(
                 "follow_start",
                 self.ex().follow_start(
@@ -1330,8 +1364,23 @@ impl Interp {
         };
         let deadline = Instant::now() + Duration::from_secs(10);
         loop {
-            let (items, closed, _) = must("follow_poll", self.ex().follow_poll(h))?;
-            let got: Vec<&WFrame> = items.iter().map(|i| &i.frame).collect();
+            let (frames, closed): (Vec<WFrame>, bool) = match &self.http_follower {
+                Some(hf) => {
+                    let (fr, closed, err) = hf.poll();
+                    if let Some(e) = err {
+                        return Err(Fail::new(
+                            Class::Http,
+                            format!("following GET / ({}): {e}", if hf.sse { "sse" } else { "ndjson" }),
+                        ));
+                    }
+                    (fr, closed)
+                }
+                None => {
+                    let (items, closed, _) = must("follow_poll", self.ex().follow_poll(h))?;
+                    (items.into_iter().map(|i| i.frame).collect(), closed)
+                }
+            };
+            let got: Vec<&WFrame> = frames.iter().collect();
             let done = got.len() >= expected.len();
             if done || closed || Instant::now() > deadline {
                 self.checks += 1;
@@ -1404,6 +1453,7 @@ impl Interp {
         self.pending_head_append = false;
         self.model.reopen();
         self.follower = None;
+        self.http_follower = None;
         self.opts.env = vec![("XSV_CLOCK".into(), self.model.clock.to_string())];
         match Exec::spawn(&self.dir.path, &self.opts) {
             Ok(e) => self.exec = Some(e),
@@ -1435,6 +1485,7 @@ impl Interp {
         // (the caller settles the operation that was in flight and then calls
         // `model.reopen()`: its collector work, too, may or may not have run)
         self.follower = None;
+        self.http_follower = None;
         self.in_flight = None;
         self.opts.env.retain(|(k, _)| k != "XSV_CLOCK");
         self.opts
@@ -1666,6 +1717,91 @@ impl Interp {
         Ok(())
     }
 
+    /// One complete GET request with edited head bytes: answered 2xx or 4xx, store unchanged,
+    /// server still serving.
+    fn mangled(&mut self, sock: &std::path::Path, template: u8, edits: &[(u16, u8, u8)]) -> Check {
+        use crate::http::{roundtrip_raw, Req};
+        let some_id = self.known.last().map(|k| k.id).unwrap_or(1u128 << 100);
+        let some_ctx = self.ctxs.last().cloned().unwrap_or(ZERO);
+        let some_hash = self
+            .known
+            .iter()
+            .rev()
+            .find_map(|k| k.spec.hash.clone())
+            .unwrap_or_else(|| sha256_integrity(b"x"));
+        let req = match template % 8 {
+            0 => Req::new("GET", "/"),
+            1 => Req::new(
+                "GET",
+                &format!("/?limit=5&last-id={}&context-id={}", id_str(some_id), id_str(some_ctx)),
+            ),
+            2 => Req::new("GET", &format!("/head/topic.a?context={}", id_str(some_ctx))),
+            3 => Req::new("GET", &format!("/{}", id_str(some_id))),
+            4 => Req::new("GET", &format!("/cas/{some_hash}")),
+            5 => Req::new("GET", "/version"),
+            6 => Req::new("GET", "/?limit=3&tail=false").header("Accept", b"text/event-stream"),
+            _ => Req::new("GET", "/head/a%20b"),
+        };
+        let mut bytes = req.to_bytes();
+        const TABLE: &[u8] = &[
+            0x00, 0x0a, 0x0d, 0x20, b'%', b'?', b'&', b'=', b'/', b'#', 0x7f, 0x80, 0xff, 0xc3, b'a', b'0', b':', b';',
+            b'+', b'"', b'\\', b'.', b'[', b'{', 0x09, 0x01,
+        ];
+        for (pos, byte, kind) in edits {
+            // never the method, never the terminating CRLFCRLF: the request stays one complete GET
+            let lo = 4usize;
+            let hi = bytes.len() - 4;
+            if hi <= lo {
+                break;
+            }
+            let at = lo + (*pos as usize * (hi - lo) >> 16);
+            let b = if *byte < 160 { TABLE[*byte as usize % TABLE.len()] } else { *byte };
+            match kind % 3 {
+                0 => bytes[at] = b,
+                1 => bytes.insert(at, b),
+                _ => {
+                    bytes.remove(at);
+                }
+            }
+        }
+        self.http_requests += 1;
+        self.checks += 1;
+        let shown = String::from_utf8_lossy(&bytes).to_string();
+        let resp = match roundtrip_raw(sock, &bytes, crate::httpx::T) {
+            Ok(r) => r,
+            Err(crate::http::HttpErr::Connect(e)) => return Err(infra(format!("connect: {e}"))),
+            Err(e) => {
+                return Err(Fail::new(
+                    Class::Http,
+                    format!("mangled request {shown:?} got no well-formed response: {e:?}"),
+                ))
+            }
+        };
+        if !((200..300).contains(&resp.status) || (400..500).contains(&resp.status)) {
+            return Err(Fail::new(
+                Class::Http,
+                format!(
+                    "mangled request {shown:?} was answered {} {:?} (neither success nor a client error)",
+                    resp.status,
+                    resp.text().chars().take(120).collect::<String>()
+                ),
+            ));
+        }
+        self.stream_read(ReadPath::Sync, None, None, None).map_err(|mut f| {
+            f.class = Class::Http;
+            f.msg = format!("after mangled request {shown:?}: {}", f.msg);
+            f
+        })?;
+        match crate::httpx::version(sock) {
+            crate::httpx::HOut::Ok(_) => Ok(()),
+            crate::httpx::HOut::Infra(e) => Err(infra(format!("connect: {e}"))),
+            other => Err(Fail::new(
+                Class::Http,
+                format!("after mangled request {shown:?} GET /version answered {other:?}"),
+            )),
+        }
+    }
+
     /// Send a request that must be refused: well-formed 4xx response, nothing
     /// stored, server still serving.
     fn bad_request(&mut self, b: &BadReq) -> Check {
@@ -1675,6 +1811,9 @@ impl Interp {
         };
         if let BadReq::KeepAlive { kinds } = b {
             return self.keep_alive(&sock, kinds);
+        }
+        if let BadReq::Mangled { template, edits } = b {
+            return self.mangled(&sock, *template, edits);
         }
         let mut allow_404 = false;
         let req = match b {
@@ -1733,7 +1872,7 @@ impl Interp {
                 allow_404 = true;
                 Req::new(method, path)
             }
-            BadReq::KeepAlive { .. } => unreachable!(),
+            BadReq::KeepAlive { .. } | BadReq::Mangled { .. } => unreachable!(),
         };
         self.http_requests += 1;
         self.checks += 1;
@@ -2179,6 +2318,11 @@ pub fn run_history(case: &HistCase) -> Result<(CaseInfo, Flags), Fail> {
         format!("{:?}|{:?}|{}|{:?}", case.layout, case.access, case.n_ctx, kinds).as_bytes(),
     );
     let mut labels = Vec::new();
+    // which operation kinds the case contains (cases, not occurrences, are counted)
+    let kinds: BTreeSet<&'static str> = case.ops.iter().map(|o| o.kind()).collect();
+    for k in kinds {
+        labels.push(format!("op:{k}"));
+    }
     let fl = &it.flags;
     for (on, name) in [
         (fl.had_remove, "remove"),
@@ -2193,6 +2337,7 @@ pub fn run_history(case: &HistCase) -> Result<(CaseInfo, Flags), Fail> {
         (fl.rejected_appends > 0, "rejected-append"),
         (fl.nul_rejected > 0, "nul-rejected"),
         (fl.gc_removed_with_neighbour, "gc-with-neighbour-topic"),
+        (fl.http_follower, "http-follow-stream"),
         (it.model.fuzzy_checks > 0, "had-three-valued-check"),
     ] {
         if on {
